@@ -109,6 +109,267 @@ def fmt(c):
     return "%s %x %x %x" % c
 
 
+# --------------------------------------------------------------------------
+# dispatch: surface operator -> opcode -> modular_arithmetic function, through
+# the real value propagation (harness `field dispatch`), on closed expressions
+# over literals.  A tree is ("n", z) | ("i", op, l, r) | ("p", op, x).
+# --------------------------------------------------------------------------
+
+INFIX_TOK = {"mul": "*", "div": "/", "add": "+", "sub": "-", "pow": "**", "idiv": "\\", "mod": "%", "shl": "<<",
+             "shr": ">>", "le": "<=", "ge": ">=", "lt": "<", "gt": ">", "eq": "==", "neq": "!=", "or": "||",
+             "and": "&&", "bor": "|", "band": "&", "bxor": "^"}
+PREFIX_TOK = {"not": "!", "neg": "-", "compl": "~"}
+INFIX = list(INFIX_TOK)
+CMP = ["le", "ge", "lt", "gt", "eq", "neq"]
+CHEAP = [o for o in INFIX if o not in ("div", "pow")]
+
+
+def curves_from_source():
+    """[(name accepted by Curve::from_str, prime)] read from constants.rs of the current tree."""
+    src = open(os.path.join(common.REPO, "program_structure/src/utils/constants.rs")).read()
+    out = []
+    for name, num in re.findall(r'\b([A-Z][A-Za-z0-9_]*)\s*=>\s*\{?\s*"(\d{15,})"', src):
+        out.append((name.upper(), int(num)))
+    return out
+
+
+def render(t, top=True):
+    """Circom text of a tree; every compound operand is parenthesised."""
+    if t[0] == "n":
+        return str(t[1])
+    if t[0] == "i":
+        return "%s %s %s" % (render(t[2], False) if t[2][0] == "n" else "(" + render(t[2]) + ")", INFIX_TOK[t[1]],
+                             render(t[3], False) if t[3][0] == "n" else "(" + render(t[3]) + ")")
+    return "%s(%s)" % (PREFIX_TOK[t[1]], render(t[2]))
+
+
+def tokens(t):
+    if t[0] == "n":
+        return "n %x" % t[1]
+    if t[0] == "i":
+        return "i %s %s %s" % (t[1], tokens(t[2]), tokens(t[3]))
+    return "p %s %s" % (t[1], tokens(t[2]))
+
+
+def parse_tokens(toks):
+    k = toks.pop(0)
+    if k == "n":
+        return ("n", int(toks.pop(0), 16))
+    if k == "i":
+        op = toks.pop(0)
+        l = parse_tokens(toks)
+        r = parse_tokens(toks)
+        return ("i", op, l, r)
+    op = toks.pop(0)
+    return ("p", op, parse_tokens(toks))
+
+
+def dispatch_boundary(p):
+    b = nbits(p)
+    vals = {0, 1, 2, 3, p // 2 - 1, p // 2, p // 2 + 1, p // 2 + 2, p - 2, p - 1, (1 << 64) - 1, 1 << 64,
+            (1 << (b - 1)) - 1, 1 << (b - 1), 255, 1 << 32}
+    return sorted(v for v in vals if 0 <= v < p)
+
+
+def dispatch_cases(ctx, curves):
+    """Closed expressions: every infix / prefix operator on boundary, random and out-of-range literals, on
+    Boolean operands, on mixed operands, and random nestings."""
+    quick = ctx.tier == "quick"
+    rng = ctx.rng
+    out = []
+    N = lambda z: ("n", z)
+    for name, p in curves:
+        cs = []
+        vals = dispatch_boundary(p)
+        _, counts = boundary(p)
+        nrand = 24 if quick else 240
+        rnd = [rng.randrange(p) for _ in range(2 * nrand)]
+        band = [p, p + 1, 2 * p - 1, 2 * p + 3, 3 * p + (p // 2) + 1, (1 << 256) + 5, (1 << 300) - 1]
+        for op in INFIX:
+            if op == "div":
+                pairs = [(a, b) for a in (0, 1, p // 2 + 1, p - 1) for b in (0, 1, 2, p // 2, p - 1)]
+                pairs += [(rnd[2 * i], rnd[2 * i + 1]) for i in range(3 if quick else 30)]
+            elif op == "pow":
+                pairs = [(a, e) for a in (0, 1, 2, p // 2 + 1, p - 1) for e in (0, 1, 2, 3, 255, 65537, 1 << 31, 4000000000)]
+                # full-size exponents are slow in the model (about a second each)
+                pairs += [(0, p - 1), (2, p - 1)] + ([] if quick else [(3, p - 2), (rnd[0], rnd[1]), (p - 1, p - 1)])
+            elif op in ("shl", "shr"):
+                pairs = [(a, k) for a in vals[::2] + rnd[:4] for k in counts + [rng.randrange(1 << 9) for _ in range(3)]]
+            else:
+                pairs = [(a, b) for a in vals for b in vals]
+                pairs += [(rnd[2 * i], rnd[2 * i + 1]) for i in range(nrand)]
+            for a, b in pairs:
+                cs.append(("i", op, N(a), N(b)))
+            # literals at and above p: the literal is reduced, then the operator is applied
+            if op not in ("div", "pow"):
+                for a in band:
+                    for b in (0, 1, 5, p - 1, p + 2):
+                        cs.append(("i", op, N(a), N(b)))
+                        cs.append(("i", op, N(b), N(a)))
+            else:
+                cs.append(("i", op, N(p + 3), N(2)))
+                cs.append(("i", op, N(3), N(p + 2)))
+                cs.append(("i", op, N(5), N(p)))
+        for op in PREFIX_TOK:
+            for a in vals + rnd[:nrand] + band:
+                cs.append(("p", op, N(a)))
+        for a in band + vals[:4]:
+            cs.append(N(a))
+        # Boolean operands (results of comparisons), all truth-value combinations
+        t_, f_ = [("i", "lt", N(1), N(2)), ("i", "eq", N(p - 1), N(p - 1)), ("i", "ge", N(0), N(p // 2))], \
+                 [("i", "gt", N(1), N(2)), ("i", "neq", N(7), N(7)), ("i", "lt", N(0), N(p // 2 + 1))]
+        for op in INFIX:
+            for x in (t_, f_):
+                for y in (t_, f_):
+                    cs.append(("i", op, rng.choice(x), rng.choice(y)))
+            for bexp in (t_[0], f_[0]):        # mixed Boolean / field operands
+                cs.append(("i", op, bexp, N(rng.choice(vals))))
+                cs.append(("i", op, N(rng.choice(vals)), bexp))
+        for op in PREFIX_TOK:
+            for bexp in t_ + f_:
+                cs.append(("p", op, bexp))
+                cs.append(("p", op, ("p", "not", bexp)))
+        # random nestings over the cheap operators (errors and missing constants propagate upwards)
+        def tree(d):
+            r = rng.random()
+            if d == 0 or r < 0.25:
+                return N(rng.choice([rng.choice(vals), rng.randrange(p), rng.randrange(1 << 8), rng.choice(band)]))
+            if r < 0.4:
+                return ("p", rng.choice(list(PREFIX_TOK)), tree(d - 1))
+            return ("i", rng.choice(CHEAP), tree(d - 1), tree(d - 1))
+        for _ in range(150 if quick else 2000):
+            cs.append(tree(3))
+        out += [(name, p, t) for t in cs]
+    # regression corpus
+    cdir = os.path.join(common.VERIF, "corpus", "C16")
+    by_name = dict(curves)
+    if os.path.isdir(cdir):
+        for fn in sorted(os.listdir(cdir)):
+            if not fn.endswith(".dispatch"):
+                continue
+            for line in open(os.path.join(cdir, fn)):
+                line = line.split("#")[0].strip()
+                if not line:
+                    continue
+                toks = line.split()
+                cname = toks.pop(0)
+                if cname in by_name:
+                    p = by_name[cname]
+                    toks = [("%x" % eval(x[1:], {"p": p})) if x.startswith("=") else x for x in toks]
+                    out.append((cname, p, parse_tokens(toks)))
+    rng.shuffle(out)      # run_lines shards contiguously: spread the expensive division / power cases
+    return out
+
+
+SEXP_TOK = re.compile(r"\(|\)|[^\s()]+")
+
+
+def parse_dump(s):
+    """(num H V) | (infix OP E E V) | (prefix OP E V) -> nested lists; None when it is not a dump."""
+    toks = SEXP_TOK.findall(s)
+    pos = [0]
+
+    def go():
+        t = toks[pos[0]]
+        pos[0] += 1
+        if t != "(":
+            return t
+        lst = []
+        while toks[pos[0]] != ")":
+            lst.append(go())
+        pos[0] += 1
+        return lst
+    try:
+        r = go()
+        return r if pos[0] == len(toks) and isinstance(r, list) else None
+    except IndexError:
+        return None
+
+
+def node_val(n):
+    """'-' | ('b', 0|1) | ('f', int) of a dump node."""
+    v = n[-1]
+    if v == "-":
+        return "-"
+    return (v[0], int(v[1], 16))
+
+
+def dispatch_verdict(p, dump, doc):
+    """Is what the implementation attached to the root what Circom defines?  Returns None or a reason."""
+    n = parse_dump(dump)
+    if n is None:
+        return "no constant tree: " + dump[:80]
+    v = node_val(n)
+    if doc.startswith("ok "):
+        d = int(doc[3:], 16)
+        if v == "-":
+            # nothing attached although the value is defined: permitted for && and || on field elements, for
+            # operators applied to Booleans / mixed operands (the implementation makes no claim), when an operand
+            # has no constant, and for over-large shift counts (error instead of the defined 0)
+            kids = [node_val(k) for k in n[2:-1]] if n[0] in ("infix", "prefix") else []
+            if n[0] == "infix" and all(k != "-" and k[0] == "f" for k in kids):
+                if n[1] in ("and", "or"):
+                    return None
+                if n[1] in ("shl", "shr"):
+                    b = kids[1][1]
+                    k = b if b <= p // 2 else p - b
+                    if k >= nbits(p) and d == 0:
+                        return None
+                return "no constant attached although both operands are constants and the result is defined"
+            if n[0] == "infix" and n[1] in ("and", "or") and all(k != "-" and k[0] == "b" for k in kids):
+                return "no constant attached to a Boolean operator on Boolean constants"
+            if n[0] == "prefix" and kids[0] != "-" and ((kids[0][0] == "f") == (n[1] in ("neg", "compl"))):
+                return "no constant attached to a prefix operator on a constant of its kind"
+            if n[0] == "num":
+                return "no constant attached to a literal"
+            return None
+        return None if v[1] == d and (v[0] == "f" or d in (0, 1)) else "attached constant differs from the documented value"
+    if doc == "err div0":
+        return None if v == "-" else "a constant is attached to an undefined expression (division by zero)"
+    return "oracle fault: " + doc
+
+
+def run_dispatch(ctx, HARNESS_BIN, MODEL_BIN):
+    curves = curves_from_source()
+    cs = dispatch_cases(ctx, curves)
+    hl = ["%s %s" % (name, render(t).encode().hex()) for name, p, t in cs]
+    ml = ["%x %s" % (p, tokens(t)) for name, p, t in cs]
+    import concurrent.futures
+    with concurrent.futures.ThreadPoolExecutor(max_workers=4) as ex:     # the four runs are independent
+        jobs = [ex.submit(common.run_lines, b, a, l, shards=common.NPROC) for b, a, l in (
+            (HARNESS_BIN, ["dispatch"], hl), (MODEL_BIN, ["dispatch-loop"], ml),
+            (MODEL_BIN, ["dispatch"], ml), (MODEL_BIN, ["dispatch-doc"], ml))]
+        impl, loop, bott, doc = [j.result() for j in jobs]
+    if not (len(impl) == len(loop) == len(bott) == len(doc) == len(cs)):
+        raise common.BuildError("dispatch outputs differ in length", "%d %d %d %d %d" % (len(impl), len(loop), len(bott), len(doc), len(cs)))
+    disagreements, failing = [], []
+    kinds, nontrivial, ops_seen = {}, set(), set()
+    for (name, p, t), li, lm, lb, ld in zip(cs, impl, loop, bott, doc):
+        ri, rm, rb, rd = (x.split(" = ", 1)[1] for x in (li, lm, lb, ld))
+        inp = "dispatch %s %x :: %s :: %s" % (name, p, render(t), tokens(t))
+        if ri != rm:
+            disagreements.append({"case": inp, "impl": ri, "model": rm})
+        n = parse_dump(rm)
+        root = n[-1] if n else None
+        rootb = parse_dump(rb) if rb.startswith("(") else rb
+        if n is None or root != rootb:
+            disagreements.append({"case": inp, "impl": "pass loop mirror: " + rm, "model": "bottom-up dispatch: " + rb})
+        if rd.startswith("err other") or rd in ("panic", "outoffuel", "bad-line"):
+            raise common.BuildError("dispatch oracle fault", inp + " -> " + rd)
+        why = dispatch_verdict(p, ri, rd)
+        if why:
+            failing.append({"case": inp, "impl": ri, "spec": rd + " (" + why + ")"})
+        ni = parse_dump(ri)
+        k = "none" if ni is None else ("-" if ni[-1] == "-" else ni[-1][0])
+        kinds[k] = kinds.get(k, 0) + 1
+        if t[0] != "n":
+            ops_seen.add(t[1])
+            nontrivial.add((t[1], name, ri.rsplit(" ", 2)[-1] if k != "f" else ri.rsplit("(f ", 1)[-1]))
+    return {"cases": len(cs), "disagreements": disagreements, "failing": failing, "kinds": kinds,
+            "nontrivial": len(nontrivial), "ops": sorted(ops_seen), "curves": [c[0] for c in curves],
+            "samples": [impl[0], impl[len(impl) // 2]]}
+
+
 def run(ctx, proofs):
     HARNESS_BIN = common.build_harness("field")
     MODEL_BIN = common.build_model("field")
@@ -169,6 +430,11 @@ def run(ctx, proofs):
             if not ok:
                 failing.append({"case": lines[i], "impl": ri, "spec": rs})
             nontrivial.add((op, p, ri))
+    # (c) the operator dispatch of expression_impl.rs through the real value propagation
+    disp = run_dispatch(ctx, HARNESS_BIN, MODEL_BIN)
+    evaluations += disp["cases"]
+    disagreements += disp["disagreements"]
+    failing += disp["failing"]
     # verdict
     for f in failing[:5]:
         ctx.violation("field operation differs from Circom's documented semantics: %s gives %s, specified %s"
@@ -196,6 +462,22 @@ def run(ctx, proofs):
         "disagreements_model_vs_impl": len(disagreements),
         "spec_failures": len(failing),
         "primes": [hex(p) for p in primes],
+        "dispatch": {
+            "rule": "closed expressions `function f() { return E; }` over literals run through parse, into_cfg, into_ssa "
+                    "(Cfg::propagate_values) of the current tree, on the curves read from constants.rs: every infix and "
+                    "prefix operator on boundary/random literals in [0,p), on literals at and above p (p, p+1, 2p-1, 2p+3, "
+                    "~3.5p, 2^256+5, 2^300-1), on Boolean operands (all truth-value combinations), on mixed operands, and "
+                    "random nestings of depth <= 3; compared node by node with the pass-loop mirror "
+                    "(Model.FieldDispatch.propagate_lit over Model.Propagate.pv_expr), at the root with the bottom-up "
+                    "dispatch (lit_dispatch) and with the documented value (Spec.DispatchSpec.doc_eval); "
+                    "distinct-nontrivial per (root operator, curve, attached constant)",
+            "expressions": disp["cases"],
+            "distinct_nontrivial": disp["nontrivial"],
+            "operators": disp["ops"],
+            "curves": disp["curves"],
+            "root_constant_kinds": disp["kinds"],
+            "samples": disp["samples"],
+        },
     })
     ctx.assumptions += [
         "num-bigint-dig's BigInt operators (%, /, &, |, ^, modpow, mod_inverse, to_radix_le) behave as Z.rem, Z.quot, Z.land, "
@@ -212,6 +494,20 @@ def replay(ctx, rep):
     if not line:
         print("replay names a broken obligation, not an input:", rep.get("broken"))
         return 1
+    if line.startswith("dispatch "):
+        head, text, toks = [x.strip() for x in line.split("::")]
+        _, name, phex = head.split()
+        out = common.run_lines(HARNESS_BIN, ["dispatch"], ["%s %s" % (name, text.encode().hex())])[0].split(" = ", 1)[1]
+        mir = common.run_lines(MODEL_BIN, ["dispatch-loop"], ["%s %s" % (phex, toks)])[0].split(" = ", 1)[1]
+        doc = common.run_lines(MODEL_BIN, ["dispatch-doc"], ["%s %s" % (phex, toks)])[0].split(" = ", 1)[1]
+        print("expression    :", text, "on", name)
+        print("implementation:", out)
+        print("mirror        :", mir)
+        print("documented    :", doc)
+        why = dispatch_verdict(int(phex, 16), out, doc)
+        if why:
+            print("verdict       :", why)
+        return 0 if (why is None and out == mir) else 1
     out = common.run_lines(HARNESS_BIN, [], [line])
     spec = common.run_lines(MODEL_BIN, ["spec"], [line])
     print("implementation:", out[0])
